@@ -309,3 +309,51 @@ Proof.
     replace (b - b) with 0 in H by lra. rewrite Rabs_R0 in H. lra. }
   rewrite E1, E2. reflexivity.
 Qed.
+
+(* ---- parts that reach their common edge along different slicing routes: one cut from the parent, the other from the
+   already cropped window g[a:b].  Over the reals both routes give the same areas, so the parts concatenate back to
+   the window. *)
+Lemma window_wf g a b : wf_g g -> (0 <= a)%Z -> (a < b)%Z -> (b <= gheight g)%Z -> wf_g (area_getitem RO g (rows_key a b)).
+Proof.
+  intros W H1 H2 H3. pose proof W as [Hw Hh]. unfold wf_g. unfold gwidth at 1, gheight at 1.
+  rewrite rows_key_area by (try exact W; lia). unfold sl_area, fullw. cbn [width height sstart sstop]. lia.
+Qed.
+
+Lemma window_part_area g a b c d : wf_g g -> (0 <= a)%Z -> (a < b)%Z -> (b <= gheight g)%Z ->
+  (0 <= c)%Z -> (c <= d)%Z -> (d <= b - a)%Z ->
+  g_area (area_getitem RO (area_getitem RO g (rows_key a b)) (rows_key c d)) = sl_area g (mk_slice (a + c) (a + d)) (fullw g).
+Proof.
+  intros W H1 H2 H3 H4 H5 H6.
+  pose proof (window_wf g a b W H1 H2 H3) as W'.
+  assert (Eh : gheight (area_getitem RO g (rows_key a b)) = (b - a)%Z).
+  { unfold gheight. rewrite rows_key_area by (try exact W; lia). reflexivity. }
+  rewrite rows_key_area by (try exact W'; rewrite ?Eh; lia).
+  rewrite (sl_area_sl_area g (mk_slice a b) (fullw g) (mk_slice c d) (fullw (area_getitem RO g (rows_key a b))));
+    [|cbn; lia|destruct W; cbn; lia|apply rows_key_area; try exact W; lia].
+  unfold shift, fullw; cbn [sstart sstop]. unfold gwidth at 1. rewrite rows_key_area by (try exact W; lia).
+  cbn [sl_area width fullw sstart sstop]. f_equal. f_equal; lia.
+Qed.
+
+Lemma split_concat_routes g a b k : wf_g g -> (0 <= a)%Z -> (a < k)%Z -> (k < b)%Z -> (b <= gheight g)%Z ->
+  let win := area_getitem RO g (rows_key a b) in
+  (exists m, concatenate_area_defs RO (area_getitem RO g (rows_key a k)) (area_getitem RO win (rows_key (k - a) (b - a))) = Some m /\
+             g_area m = g_area win /\ g_crs m = g_crs g) /\
+  (exists m, concatenate_area_defs RO (area_getitem RO win (rows_key 0 (k - a))) (area_getitem RO g (rows_key k b)) = Some m /\
+             g_area m = g_area win /\ g_crs m = g_crs g).
+Proof.
+  intros W H1 H2 H3 H4 win. subst win.
+  assert (Ew : g_area (area_getitem RO g (rows_key a b)) = sl_area g (mk_slice a b) (fullw g)) by (apply rows_key_area; try exact W; lia).
+  split.
+  - destruct (concat_windows g a k b (area_getitem RO g (rows_key a k))
+                (area_getitem RO (area_getitem RO g (rows_key a b)) (rows_key (k - a) (b - a)))) as (m & E & Ea & _ & _ & _ & Ec).
+    + apply rows_key_area; try exact W; lia.
+    + rewrite window_part_area by (try exact W; lia). f_equal. f_equal; lia.
+    + rewrite !rows_key_crs. reflexivity.
+    + exists m. split; [exact E|]. rewrite Ea, Ec, Ew, rows_key_crs. split; reflexivity.
+  - destruct (concat_windows g a k b (area_getitem RO (area_getitem RO g (rows_key a b)) (rows_key 0 (k - a)))
+                (area_getitem RO g (rows_key k b))) as (m & E & Ea & _ & _ & _ & Ec).
+    + rewrite window_part_area by (try exact W; lia). f_equal. f_equal; lia.
+    + apply rows_key_area; try exact W; lia.
+    + rewrite !rows_key_crs. reflexivity.
+    + exists m. split; [exact E|]. rewrite Ea, Ec, Ew, !rows_key_crs. split; reflexivity.
+Qed.
